@@ -342,7 +342,11 @@ def fix_too_many_blank_lines(source: str) -> str:
     source = processing.keep_syntax_tree(source, re.sub(r"(\n\s*){3,}\n", "\n" * 3, source))
 
     # At EOF, remove all newlines and whitespace above 1
-    source = processing.keep_syntax_tree(source, re.sub(r"(\n\s*){2,}\Z", "\n", source))
+    # (the same as (\n\s*){2,}\Z, which takes exponential time where a long run of blank lines is
+    # not at the end, as in a string)
+    source = processing.keep_syntax_tree(
+        source, re.sub(r"\n[^\S\n]*\n\s*\Z", "\n", source)
+    )
 
     # At non-module (any indented) level, remove all newlines above 1, preserve indent
     source = processing.keep_syntax_tree(
